@@ -218,7 +218,18 @@ func ParseFunction(parameterList, body string) (*ast.FunctionLiteral, error) {
 		return nil, err
 	}
 
-	return program.Body[0].(*ast.ExpressionStatement).Expression.(*ast.FunctionLiteral), nil
+	// 15.3.2.1: the parameter text and the body have to be a FormalParameterList
+	// and a FunctionBody on their own. Text that closes the synthetic wrapper
+	// early ("a){}), (function(") parses, but not to the one function literal.
+	if len(program.Body) == 1 {
+		if stmt, ok := program.Body[0].(*ast.ExpressionStatement); ok {
+			if function, ok := stmt.Expression.(*ast.FunctionLiteral); ok {
+				return function, nil
+			}
+		}
+	}
+	p.error(0, "Unexpected token )")
+	return nil, p.errors.Err()
 }
 
 // Scan reads a single token from the source at the current offset, increments the offset and
